@@ -132,6 +132,12 @@ static void nsq_compare_case(int deldec, const nsq_case *c, const char *what, si
    int lvl, nd = 0, j;
    nsq_run(cfun, c, &a, &ia, pa);
    if (out_c) *out_c = a;
+   if (perturbed && !probe10) {
+      int q, sat = 0, nn = c->enc.nb_subfr * c->enc.subfr_length;
+      for (q = 0; q < nn; q++) if (pa[q] >= 30 || pa[q] <= -30) sat = 1;
+      for (q = 0; q < 2 * MAX_FRAME_LENGTH; q++) if (a.xq[q] == 32767 || a.xq[q] == -32768) sat = 1;
+      g_excluded_sat += sat;
+   }
    for (lvl = 0; lvl <= g_host_arch && lvl <= 4; lvl++) {
       int seen = tab[lvl] == cfun || tab[lvl] == NULL;
       const char *d;
@@ -141,16 +147,6 @@ static void nsq_compare_case(int deldec, const nsq_case *c, const char *what, si
       nsq_run(tab[lvl], c, &b, &ib, pb);
       g_cases++;
       d = nsq_diff(c, &a, &ia, pa, &b, &ib, pb);
-      if (d && perturbed) {
-         /* A perturbed state can drive the quantiser into saturation (pulses at the +-31/30 limit, output clipped at
-            int16): there the portable code's 32-bit intermediates wrap while NSQ_del_dec_avx2.c computes them in 64 bits
-            ("more correct, but it won't overflow like the C code", NSQ_del_dec_avx2.c:113).  Such a state is not one the
-            encoder hands over, so it is counted, not reported. */
-         int q, sat = 0, nn = c->enc.nb_subfr * c->enc.subfr_length;
-         for (q = 0; q < nn; q++) if (pa[q] >= 30 || pa[q] <= -30) sat = 1;
-         for (q = 0; q < 2 * MAX_FRAME_LENGTH; q++) if (a.xq[q] == 32767 || a.xq[q] == -32768) sat = 1;
-         if (sat) { g_excluded_sat++; d = NULL; }
-      }
       if (d && probe10) { g_obs_order10++; d = NULL; }
       if (d && !perturbed && deldec && tab[lvl] == (nsq_fn)silk_NSQ_del_dec_avx2) {
          /* live state: tag the one defect class that is understood (see above): the portable result is in the wrap domain */
@@ -183,8 +179,9 @@ static opus_int32 rand_gain(vrng *r)
    return (opus_int32)g;
 }
 
-/* Perturbations stay inside what the encoder can hand to the quantiser (the kernels read uninitialised scratch or
-   overflow 32 bits outside it, which the portable and the SIMD code need not do alike):
+/* Perturbations stay inside what the encoder can hand to the quantiser (outside it the kernels read uninitialised scratch,
+   which the portable and the SIMD code need not do alike).  States in which the quantiser saturates / wraps 32 bits ARE
+   compared: since /repo 50e8da86 and b1d58384 the SIMD kernels wrap exactly like the C code there.
      - shaping order one of 12,14,16,20,24 (control_codec.c:316-387; order 10, for which silk_NSQ_sse4_1 has a special
        path, cannot be selected and is probed separately as an observation, not as a violation); prediction order
        16 -> 10 only; warping 0 or fs_kHz*983 (control_codec.c:365);
@@ -720,7 +717,7 @@ static void report(void)
       printf(" compared-live=%ld compared-perturbed=%ld\n", g_cmp[k], g_cmp_pert[k]);
    }
    printf("# dist nsq-compared voiced=%ld unvoiced=%ld shaping10_predict16=%ld states>=3=%ld warped=%ld\n", g_nsq_paths[0], g_nsq_paths[1], g_nsq_paths[2], g_nsq_paths[3], g_nsq_paths[4]);
-   printf("# dist nsq perturbed cases not compared because the portable quantiser saturated (32-bit wrap domain): %ld\n", g_excluded_sat);
+   printf("# dist nsq perturbed cases in which the portable quantiser saturated (pulses at +-31/30 or int16-clipped output; compared like all others): %ld\n", g_excluded_sat);
    printf("# observation: silk_NSQ_sse4_1 with shapingLPCOrder=10/predictLPCOrder=16 (a shape no complexity setting selects) differs from silk_NSQ_c in %ld of %ld probes\n", g_obs_order10, g_probe_order10);
    printf("# dist frames=%ld silk=%ld hybrid=%ld celt=%ld decodes=%ld\n", d_frames, d_mode[0], d_mode[1], d_mode[2], d_dec);
    printf("# dist packet-streams identical: float-equivalent level pairs %ld of %ld (required), other pairs %ld of %ld (not required)\n",
